@@ -407,7 +407,7 @@ def strategy_restore():
 
 
 STREAMS = {
-    "flatten": Stream("flatten", oracle=oracle_flatten, strategy=strategy_flatten, quick=20000, thorough=300000, shards_quick=8, shards_thorough=16),
-    "module": Stream("module", oracle=oracle_module, strategy=strategy_module, quick=8000, thorough=150000, shards_quick=4, shards_thorough=16),
-    "restore": Stream("restore", oracle=oracle_restore, strategy=strategy_restore, quick=6000, thorough=100000, shards_quick=4, shards_thorough=16),
+    "flatten": Stream("flatten", oracle=oracle_flatten, strategy=strategy_flatten, quick=20000, thorough=200000, shards_quick=8, shards_thorough=16),
+    "module": Stream("module", oracle=oracle_module, strategy=strategy_module, quick=8000, thorough=80000, shards_quick=4, shards_thorough=16),
+    "restore": Stream("restore", oracle=oracle_restore, strategy=strategy_restore, quick=6000, thorough=60000, shards_quick=4, shards_thorough=16),
 }
